@@ -185,6 +185,50 @@ def r3_order_and_switch(ctx, res):
         res.find(key, el.module.loc(el.node), 'Wordnet.expanded_lexicons no longer reports the expand lexicons in use')
 
 
+def _row_flow(func, expr, scope_stmts, depth=0):
+    """follow the rows that reach `expr` back to their source: [(kind, detail)] with kind in
+    'join' | 'project' | 'filter' | 'keyed' | 'set' | 'copy' | 'source' | 'opaque'."""
+    if expr is None or depth > 8:
+        return [('opaque', 'nothing')]
+    e = expr
+    if isinstance(e, ast.Call) and isinstance(e.func, ast.Attribute) and e.func.attr == 'join' and e.args:
+        return [('join', '')] + _row_flow(func, e.args[0], scope_stmts, depth + 1)
+    if isinstance(e, (ast.GeneratorExp, ast.ListComp, ast.SetComp, ast.DictComp)):
+        out = []
+        if isinstance(e, ast.DictComp):
+            out.append(('keyed', norm(e.key)))
+        elif isinstance(e, ast.SetComp):
+            out.append(('set', norm(e.elt)))
+        else:
+            out.append(('project', ''))
+        for g in e.generators:
+            for c in g.ifs:
+                out.append(('filter', norm(c)))
+        # the innermost generator that is not `self._lexicons` carries the rows
+        its = [g.iter for g in e.generators]
+        srcs = [it for it in its if norm(it) != 'self._lexicons']
+        if len(srcs) != 1:
+            return out + [('opaque', norm(e)[:60])]
+        return out + _row_flow(func, srcs[0], scope_stmts, depth + 1)
+    if isinstance(e, ast.Call) and norm(e.func) == 'get_lexicon_dependencies':
+        ok = norm(e) == 'get_lexicon_dependencies(lex._id)'
+        return [('source', '')] if ok else [('opaque', norm(e))]
+    if isinstance(e, ast.Call) and isinstance(e.func, ast.Name) and e.func.id in ('list', 'tuple', 'iter', 'reversed') and len(e.args) == 1:
+        return [('copy', e.func.id)] + _row_flow(func, e.args[0], scope_stmts, depth + 1)
+    if isinstance(e, ast.Call) and isinstance(e.func, ast.Name) and e.func.id in ('set', 'frozenset', 'dict', 'unique_list', 'sorted') and e.args:
+        kind = {'dict': 'keyed', 'set': 'set', 'frozenset': 'set'}.get(e.func.id, 'copy')
+        return [(kind, e.func.id + '()')] + _row_flow(func, e.args[0], scope_stmts, depth + 1)
+    if isinstance(e, ast.Call) and isinstance(e.func, ast.Attribute) and e.func.attr in ('values', 'keys', 'items') and not e.args:
+        return [('copy', '.' + e.func.attr + '()')] + _row_flow(func, e.func.value, scope_stmts, depth + 1)
+    if isinstance(e, ast.Name):
+        assigns = [n for st in scope_stmts for n in ast.walk(st) if isinstance(n, (ast.Assign, ast.AnnAssign)) and n.value is not None
+                   and any(isinstance(t, ast.Name) and t.id == e.id for t in (n.targets if isinstance(n, ast.Assign) else [n.target]))]
+        if len(assigns) == 1:
+            return _row_flow(func, assigns[0].value, scope_stmts, depth + 1)
+        return [('opaque', f'{len(assigns)} assignments to {e.id}')]
+    return [('opaque', norm(e)[:60])]
+
+
 def r4_default_expand(ctx, res):
     wi = ctx.repo.func('_core', 'Wordnet.__init__')
     loc = wi.module.loc(wi.node)
@@ -212,6 +256,23 @@ def r4_default_expand(ctx, res):
     if not ok:
         res.find(key, loc, 'the default expand specifier is no longer built from exactly the dependencies that are installed '
                            '(provider rowid not None)')
+    # row flow: every (id, version) row of get_lexicon_dependencies reaches the join; the only filter is the provider rowid
+    key = 'default-expand:every-declared-dependency'
+    steps = _row_flow(wi, joins[0].value if joins else None, inner.orelse)
+    res.inst(key, loc, ' <- '.join(st[0] + (f'[{st[1]}]' if st[1] else '') for st in steps))
+    src_ok = bool(steps) and steps[-1][0] == 'source'
+    bad = None
+    for kind, detail in steps:
+        if kind == 'filter' and detail.replace(' ', '') not in ('_idisnotNone', 'notNoneis_id'):
+            bad = f'rows are filtered by `{detail}`'
+        elif kind == 'keyed' and not ('id' in detail.replace('_id', '').replace(' ', '').strip('()').split(',') and 'ver' in detail):
+            bad = f'rows are collapsed into a mapping keyed by `{detail}` (two selected lexicons may require different versions of one provider: both are declared dependencies)'
+        elif kind == 'opaque':
+            bad = f'cannot follow the rows through `{detail}`'
+    if not src_ok and bad is None:
+        bad = 'the rows joined into the specifier do not come from get_lexicon_dependencies(lex._id) for lex in self._lexicons'
+    if bad:
+        res.find(key, loc, f'the default expand set is no longer exactly the declared dependencies of the selected lexicons that are installed: {bad}')
     key = 'default-expand:warning'
     res.inst(key, loc, 'WnWarning iff some dependency is missing')
     warns = [n for n in ast.walk(ast.Module(body=inner.orelse, type_ignores=[])) if isinstance(n, ast.Call) and norm(n.func) == 'warnings.warn']
